@@ -88,7 +88,7 @@ def run(ctx):
         rows = rng.randint(1, 6)
         exprs = [gen.rand_expr_flat(rng, n_units, 3, 3, n_cands) for _ in range(rows)]
         one_case(ctx, I, n_units, n_cands, exprs)
-        if ctx.elapsed() > (100 if ctx.tier == "quick" else 900):
+        if ctx.elapsed() > (400 if ctx.tier == "quick" else 1800):
             break
     return ctx.finish("proof", "Theorems C05_* state that the modelled query (padding, squeeze, masked any, negative indexing) "
                       "returns the truth value of each row's formula for every container and assignment; this run compared the "
